@@ -18,6 +18,8 @@ func main() {
 	sub := os.Args[1]
 	args := os.Args[2:]
 	switch sub {
+	case "probe-fee63":
+		cmdProbeFee63()
 	case "keys":
 		cmdKeys(args)
 	case "chain":
